@@ -3,6 +3,7 @@
 use crate::engine::{Family, Property, Tier, Verdict};
 use crate::gen::{self, DocOpts};
 use crate::run::{transform, Cfg, Outcome};
+use proptest::collection::vec;
 use proptest::prelude::*;
 use serde::{Deserialize, Serialize};
 
@@ -33,6 +34,58 @@ fn fam_docgen(_t: Tier) -> BoxedStrategy<Case> {
 
 fn fam_union(t: Tier) -> BoxedStrategy<Case> {
     (crate::props::union::svgdx_docs(t), cfg_any(), cfg_any()).prop_map(|(input, c1, c2)| Case { input, c1, c2, fam: "union".into() }).boxed()
+}
+
+/// documents with a prolog (declaration, comments, processing instructions, a DOCTYPE with or without entity declarations, in
+/// every order XML allows) and mixed content: CDATA sections next to character data, entity references in verbatim content
+fn fam_prolog(_t: Tier) -> BoxedStrategy<Case> {
+    const TEXTS: &[&str] = &["matrix[a[0]]&gt;1", "]]&gt;", "a &amp; b", "plain", " ]] &gt; ", "&#93;&#93;&#62;", "x]]", "&gt;"];
+    const REFS: &[&str] = &["&proj;", "&amp;", "&proj;&proj;", "&#65;", "&other;"];
+    (vec(0u8..4, 0..4), 0u8..3, any::<bool>(), vec((0u8..8, 0..TEXTS.len(), 0..TEXTS.len(), 0..REFS.len()), 1..5), cfg_any(), cfg_any())
+        .prop_map(|(pro, dt, decl, items, c1, c2)| {
+            let doctype = match dt {
+                1 => "<!DOCTYPE svg PUBLIC \"-//W3C//DTD SVG 1.1//EN\" \"http://www.w3.org/Graphics/SVG/1.1/DTD/svg11.dtd\">\n",
+                2 => "<!DOCTYPE svg [\n  <!ENTITY proj \"Apollo\">\n]>\n",
+                _ => "",
+            };
+            let mut s = String::new();
+            if decl {
+                s.push_str("<?xml version=\"1.0\" encoding=\"UTF-8\"?>\n");
+            }
+            // the DOCTYPE goes after the `at`-th of the other prolog items
+            let at = pro.iter().position(|k| *k == 3).unwrap_or(pro.len());
+            for (i, k) in pro.iter().enumerate() {
+                if i == at {
+                    s.push_str(doctype);
+                }
+                match k {
+                    0 => s.push_str("<!-- Project diagram -->\n"),
+                    1 => s.push_str("<?pi-before some data?>\n"),
+                    2 => s.push_str("\n  \n"),
+                    _ => {}
+                }
+            }
+            if at == pro.len() {
+                s.push_str(doctype);
+            }
+            s.push_str("<svg>\n");
+            for (k, t, t2, r) in items {
+                let (t, t2, r) = (TEXTS[t], TEXTS[t2], REFS[r]);
+                s.push_str(&match k {
+                    0 => format!("  <g><![CDATA[ note: ]]>{t}\n    <rect wh=\"20 10\" text=\"cell\"/>\n  </g>\n"),
+                    1 => format!("  <title>{r} overview {t}</title>\n"),
+                    2 => format!("  <desc>{t}<![CDATA[{}]]>{t2}</desc>\n", t2.replace("&gt;", " ")),
+                    3 => format!("  <text xy=\"0 0\">{t} {r}</text>\n"),
+                    4 => format!("  <g><rect wh=\"2\"/><![CDATA[x]]>{t}<circle r=\"1\"/>{t2}</g>\n"),
+                    5 => format!("<![CDATA[lead]]>{t}\n  <rect wh=\"3\"/>\n"),
+                    6 => format!("  <defs><![CDATA[ d ]]>{t}<rect id=\"d{}\" wh=\"1\"/></defs>\n", t.len()),
+                    _ => format!("  <style>{r} .a {{ fill: red; }} {t}</style>\n"),
+                });
+            }
+            s.push_str("</svg>");
+            Case { input: s, c1, c2, fam: "prolog".into() }
+        })
+        .boxed()
 }
 
 fn corpus_cases() -> Vec<Case> {
@@ -68,7 +121,7 @@ impl Property for C05 {
         "C05"
     }
     fn rule(&self) -> String {
-        "cases = (svgdx document x, config c1, config c2) with x from the union of the svgdx generators (hostile-string documents, DocGen with text/comments/loops/reuse/random functions, the per-property layout/text/style generators) and the repository corpus; \
+        "cases = (svgdx document x, config c1, config c2) with x from the union of the svgdx generators (hostile-string documents, DocGen with text/comments/loops/reuse/random functions, the per-property layout/text/style generators, documents with a prolog in every order and CDATA / entity references in mixed content) and the repository corpus; \
          c1, c2 drawn independently (debug, metadata, themes, borders, scales, hostile strings, small limits). Oracle: if T_c1(x) = Ok(y) and x's outermost element is <svg> then T_c2(y) = Ok(y') with y' == y byte for byte. \
          Non-trivial = y contains an entity reference, comment, CDATA, tspan, defs, style, metadata attribute or non-ASCII character; distinct by hash of the case."
             .into()
@@ -85,6 +138,7 @@ impl Property for C05 {
             Family::random("hostile", tier.n(24_000, 120_000), fam_hostile),
             Family::random("docgen", tier.n(20_000, 100_000), fam_docgen),
             Family::random("union", tier.n(24_000, 120_000), fam_union),
+            Family::random("prolog-and-mixed-content", tier.n(8_000, 40_000), fam_prolog),
             Family::fixed("corpus", corpus),
         ]
     }
